@@ -53,6 +53,55 @@ Proof.
   apply Permutation_length in P. exact P.
 Qed.
 
+(* ---- tie-breaking: the popped entry is least in the order (d2, then idx) ---- *)
+Definition le_lex (a b : entry) : Prop :=
+  (e_d a < e_d b)%Q \/ ((e_d a == e_d b)%Q /\ e_idx a <= e_idx b).
+
+Lemma worse_false_iff : forall a b, worse a b = false <-> le_lex a b.
+Proof.
+  intros a b. unfold worse, le_lex.
+  destruct (e_d a ?= e_d b)%Q eqn:E.
+  - apply Qeq_alt in E. rewrite Z.ltb_ge. split.
+    + intros H. right. split; assumption.
+    + intros [H|[_ H]]; [rewrite E in H; exfalso; apply (Qlt_irrefl _ H) | exact H].
+  - apply Qlt_alt in E. split; [intros _; left; exact E | reflexivity].
+  - apply Qgt_alt in E. split; [discriminate|].
+    intros [H|[H _]]; exfalso.
+    + apply (Qlt_irrefl (e_d a)). eapply Qlt_trans; eassumption.
+    + rewrite H in E. apply (Qlt_irrefl _ E).
+Qed.
+
+Lemma le_lex_trans : forall a b c, le_lex a b -> le_lex b c -> le_lex a c.
+Proof.
+  intros a b c [H1|[H1 I1]] [H2|[H2 I2]]; unfold le_lex.
+  - left. eapply Qlt_trans; eassumption.
+  - left. rewrite <- H2. exact H1.
+  - left. rewrite H1. exact H2.
+  - right. split; [rewrite H1; exact H2 | lia].
+Qed.
+
+Lemma le_lex_total : forall a b, worse a b = true -> le_lex b a.
+Proof.
+  intros a b H. unfold worse in H. unfold le_lex.
+  destruct (e_d a ?= e_d b)%Q eqn:E; try discriminate.
+  - apply Qeq_alt in E. apply Z.ltb_lt in H. right. split; [symmetry; exact E | lia].
+  - apply Qgt_alt in E. left. exact E.
+Qed.
+
+Theorem extract_min_least : forall h m r,
+  extract_min h = Some (m, r) -> forall x, In x r -> le_lex m x.
+Proof.
+  induction h as [|e h IH]; intros m r H; cbn [extract_min] in H; [discriminate|].
+  destruct (extract_min h) as [[m0 r0]|] eqn:E.
+  - pose proof (IH m0 r0 eq_refl) as L.
+    pose proof (extract_min_spec h m0 r0 E) as [P _].
+    destruct (worse e m0) eqn:W; inversion H; subst; clear H.
+    + intros x [<-|Hx]; [apply le_lex_total; exact W | apply L; exact Hx].
+    + apply worse_false_iff in W. intros x Hx. apply (Permutation_in _ P) in Hx.
+      destruct Hx as [<-|Hx]; [exact W | eapply le_lex_trans; [exact W | apply L; exact Hx]].
+  - inversion H; subst. intros x [].
+Qed.
+
 (* ------------------------------------------------------------ iota / filter *)
 Lemma in_iota : forall n i, In i (iota n) <-> 0 <= i < n.
 Proof.
@@ -483,3 +532,7 @@ Proof.
         destruct a, b. cbn in E1, E2. subst. apply subseq_take. apply IH. exact H.
       * apply subseq_skip. apply IH. exact H.
 Qed.
+
+Lemma simplify_example_ok :
+  simplify_ring [(0,0);(2,0);(4,0);(4,1);(4,4);(2,5);(0,4)] (1#4) = Some [(0,0);(4,0);(4,4);(2,5);(0,4)].
+Proof. vm_compute. reflexivity. Qed.
